@@ -39,6 +39,39 @@ class Defs:
                 else:
                     self._pw(d).setdefault(d['l'], []).append((bi, 'term', d, {'r': 'call', 'term': t}))
 
+        if any(bb.get('threaded') for bb in body.blocks):
+            self._merge_threaded_copies()
+
+    def _merge_threaded_copies(self):
+        """Jump threading (pk/thread.py) duplicates blocks: a local defined by the same statement in several copies still has
+        ONE definition as far as definition tracing is concerned.  Keep one representative (a reachable one)."""
+        from .cfg import term_succs
+        blocks = self.body.blocks
+        reach, stack = set(), [0]
+        while stack:
+            x = stack.pop()
+            if x in reach:
+                continue
+            reach.add(x)
+            stack.extend(term_succs(blocks[x]['term']))
+
+        def sig(d):
+            if d[2] == 'assign':
+                return ('a', repr(d[3]))
+            t = d[3]
+            return ('c', repr(t['func']), repr(t['args']), repr(t['dest']))
+        for table in (self.defs, self.pwrites, self.dwrites):
+            for l, ds in list(table.items()):
+                if len(ds) < 2 or not any(blocks[d[0]].get('threaded') for d in ds):
+                    continue
+                live = [d for d in ds if d[0] in reach] or ds
+                groups = {}
+                for d in live:
+                    key = sig(d) if table is self.defs else (repr(d[2]), repr(d[3]) if not (isinstance(d[3], dict) and d[3].get('r') == 'call')
+                                                           else repr(d[3]['term']['func']) + repr(d[3]['term']['args']))
+                    groups.setdefault(key, []).append(d)
+                table[l] = [g[0] for g in groups.values()]
+
     def _pw(self, pl):
         return self.dwrites if 'deref' in pl['p'] else self.pwrites
 
